@@ -631,7 +631,43 @@ pub fn diff<CS: BbsCiphersuite>(rep: &Report, ck: &str, op: &Op) -> D {
             if matches!(m, Mutn::None) && !rf {
                 return Err(("honest-blind-proof-rejected-by-reference".into(), format!("blind proof {} made by {}", hx(&pb), if *by_ref { "the reference" } else { "the library" })));
             }
-            dec("blind_proof_verify", &format!("blind_proof_verify under {:?} (made by {})", m, if *by_ref { "reference" } else { "library" }), lib, rf)
+            dec("blind_proof_verify", &format!("blind_proof_verify under {:?} (made by {})", m, if *by_ref { "reference" } else { "library" }), lib, rf)?;
+            // the same statement in the verifier's "one list" spelling: the disclosed committed messages ride in
+            // disclosed_messages under their absolute positions j + L + 1, the committed lists stay empty / None
+            let mut dm1 = dm.clone();
+            dm1.extend(dcm.iter().cloned());
+            let mut di1 = di.clone();
+            let mut overflow = false;
+            for j in &dci {
+                match j.checked_add(lv + 1) {
+                    Some(x) => di1.push(x),
+                    None => overflow = true,
+                }
+            }
+            if overflow || dcm.is_empty() {
+                return Ok(());
+            }
+            let none_spelling = st % 2 == 0;
+            let lib1 = catch(|| {
+                (|| {
+                    let k = BBSplusPublicKey::from_bytes(&pkb).ok()?;
+                    let pr = PoKSignature::<BBSplus<CS>>::from_bytes(&pb).ok()?;
+                    if none_spelling {
+                        pr.blind_proof_verify(&k, h.as_deref(), p.as_deref(), Some(lv), Some(&dm1), None, Some(&di1), None).ok()
+                    } else {
+                        pr.blind_proof_verify(&k, h.as_deref(), p.as_deref(), Some(lv), Some(&dm1), Some(&[]), Some(&di1), Some(&[])).ok()
+                    }
+                })()
+                .is_some()
+            })
+            .unwrap_or(false);
+            let rf1 = r.blind_proof_verify(&pkb, &pb, h.as_deref().unwrap_or(b""), p.as_deref().unwrap_or(b""), lv, &dm1, &[], &di1, &[]).is_ok();
+            rep.eval(ck, 1);
+            rep.class(&format!("blind:one-list-spelling:{}:{}", if matches!(m, Mutn::None) { "honest" } else { "mutated" }, if rf1 { "accept" } else { "reject" }));
+            if matches!(m, Mutn::None) && !rf1 {
+                return Err(("honest-blind-proof-rejected-by-reference".into(), format!("one-list spelling of blind proof {}", hx(&pb))));
+            }
+            dec("blind_proof_verify", &format!("blind_proof_verify, one-list spelling, under {:?} (made by {})", m, if *by_ref { "reference" } else { "library" }), lib1, rf1)
         }
     }
 }
@@ -807,7 +843,7 @@ pub fn run(ctx: &Ctx, rep: &Report) -> Meta {
     Meta {
         rule: "generated operations: KeyGen/SkToPk (ikm 0..200 octets, key_info up to 65536, key_dst up to 300 or None), histories of create_generators(count, api_id) calls (count 0..=64 quick / 1100 thorough; api_id in {None, empty, both API ids, BLIND_-prefixed, random ASCII}), \
                hash_to_scalar (dst up to 400 octets), messages_to_scalars, Sign, and verifier decisions on honest and mutated artefacts (message / header / ph / pk edits, bit flips, index shifts, whole-scalar framing edits, zero scalars, a scalar written as value + r, artefacts forged around the identity element (proof with Abar = Bbar = O and cancelling responses, signature under the identity public key), identity points, trailing bytes, L+-1, other blinding factor, list shapes of the disclosed data: one more message than indexes, one more (unlisted) index than messages, a second entry under an index that is already listed) \
-               for verify, proof_verify, blind_sign's commitment validation, verify_blind_sign, blind_proof_verify; proofs and commitments made by the library must be accepted by the reference and vice versa; \
+               for verify, proof_verify, blind_sign's commitment validation, verify_blind_sign, blind_proof_verify; proofs and commitments made by the library must be accepted by the reference and vice versa; every blind proof statement (honest and mutated) is decided a second time in the verifier's one-list spelling (committed messages in disclosed_messages under their absolute positions j + L + 1, committed lists None or empty); \
                oracle: byte equality of outputs and equality of Ok/Err decisions with the independent reference model, which must first reproduce every fixture; \
                size sweep: Sign octets, proof and blind round trips for every L in 0..=72 (quick) / 0..=260 (thorough); every message length 0..=600 / 2100 through messages_to_scalars, every header length 0..=1100 through Sign, every hash_to_scalar input length 0..=300, every interface-identifier length 190..=262 through messages_to_scalars and create_generators; a third of the operations after a warm-up history; a quarter of the verification comparisons ask the same decoded object three times (as given, other header, as given); volume: 3600 (quick) / 40000 (thorough) small Sign / Verify / ProofVerify comparisons; schedules: lists of such operations executed by 2, 4 or 16 threads released from a barrier in rotated orders; non-trivial = every generated operation (none coincides with a fixture); evaluations = compared outputs / decisions"
             .into(),
